@@ -72,7 +72,7 @@ def class_weights(tier):
 
 
 def n_runs(tier):
-    return 90_000 if tier == "quick" else 2_400_000
+    return 90_000 if tier == "quick" else 6_000_000
 
 
 def _letters(s: Choices, n, is_float, arb):
